@@ -3,9 +3,14 @@
  * usage: drv_srv <cases.txt> <out.ndjson>
  *   X id=<n> table=<k>
  *   I <hex> [m]          inject this datagram from a fresh peer ("m": addressed to the All-CoAP-Nodes multicast group)
+ *   J <hex> <p>          inject this datagram from peer number <p> (the same peer may speak again: repeats, duplicates)
+ *   T                    the application releases every answer it has deferred (coap_async_trigger)
+ *   W <ms>               let <ms> of virtual time pass
  *   E
  * tables (k):  0 empty | 1 plain resources | 2 = 1 + unknown-resource handler (PUT, GET) | 3 = 2 with the
  *              HANDLE_WELLKNOWN_CORE flag | 4 = 1 + application-registered critical option 65001 | 5 = 1 + proxy resource
+ *              6 = 1 + resources whose GET handler defers its answer (coap_register_async): "w" until the application
+ *                  releases it, "v" for 3 s
  */
 #include "simnet.h"
 #include <string.h>
@@ -22,6 +27,16 @@ static const rdef_t RES[] = {
   { "a//c", { {1, 69}, {0, 0} } },                      /* empty interior segment */
   { NULL,  { {0, 0} } }
 };
+#define NRES 7
+/* deferring resources (table 6): the first call registers an async entry and sets nothing, the released call answers 2.05 */
+static const rdef_t ASY[] = {
+  { "w", { {1, 0}, {0, 0} } },
+  { "v", { {1, 0}, {0, 0} } },
+  { NULL, { {0, 0} } }
+};
+#define MAXDEF 64
+static coap_async_t *deferred[MAXDEF];
+static int ndeferred;
 static const rdef_t UNK = { "-unknown-", { {3, 65}, {1, 69}, {0, 0} } };
 
 static coap_context_t *ctx;
@@ -48,12 +63,17 @@ static void hnd(coap_resource_t *r, coap_session_t *s, const coap_pdu_t *req, co
   const uint8_t *dp = NULL;
   coap_bin_const_t t = coap_pdu_get_token(req);
   int first = 1;
-  (void)s;
   for (i = 0; d->h[i].m; i++)
     if (d->h[i].m == m) code = d->h[i].code;
-  if (d != &UNK)
+  coap_async_t *as = NULL;
+  int isdef = d >= ASY && d < ASY + 2;
+  if (isdef) {
+    idx = NRES + 1 + (int)(d - ASY);
+    as = coap_find_async(s, t);
+  } else if (d != &UNK)
     idx = (int)(d - RES) + 1;
-  fprintf(sim_trace, "{\"e\":\"Handler\",\"res\":%d,\"method\":%d,\"hasq\":%s,\"query\":", idx, m, q ? "true" : "false");
+  fprintf(sim_trace, "{\"e\":\"Handler\",\"res\":%d,\"again\":%s,\"method\":%d,\"hasq\":%s,\"query\":", idx, as ? "true" : "false", m,
+          q ? "true" : "false");
   if (q) arr(q->s, q->length); else fputs("[]", sim_trace);
   fputs(",\"tok\":", sim_trace);
   arr(t.s, t.length);
@@ -68,6 +88,18 @@ static void hnd(coap_resource_t *r, coap_session_t *s, const coap_pdu_t *req, co
   fputs("],\"pl\":", sim_trace);
   if (coap_get_data(req, &dl, &dp) && dl) arr(dp, dl); else fputs("[]", sim_trace);
   fputs("}\n", sim_trace);
+  if (isdef && !as) {
+    /* defer: "w" until the application says so, "v" for three seconds */
+    as = coap_register_async(s, req, d == &ASY[0] ? 0 : 3 * COAP_TICKS_PER_SECOND);
+    if (as && d == &ASY[0] && ndeferred < MAXDEF)
+      deferred[ndeferred++] = as;
+    return;
+  }
+  if (isdef) {
+    coap_pdu_set_code(resp, COAP_RESPONSE_CODE_CONTENT);
+    coap_add_data(resp, 1, (const uint8_t *)"D");
+    return;
+  }
   if (code) {
     coap_pdu_set_code(resp, (coap_pdu_code_t)code);
     if (code == 69)
@@ -78,7 +110,12 @@ static void hnd(coap_resource_t *r, coap_session_t *s, const coap_pdu_t *req, co
 static void on_peer_rx(const sim_dgram_t *dg) {
   fputs("{\"e\":\"Reply\",\"w\":", sim_trace);
   arr(dg->data, dg->len);
-  fprintf(sim_trace, ",\"t\":%llu}\n", (unsigned long long)sim_now);
+  fprintf(sim_trace, ",\"t\":%llu,\"peer\":%u}\n", (unsigned long long)sim_now, sim_port(&dg->dst));
+  if (dg->len >= 4 && (dg->data[0] & 0x30) == 0x00 && dg->data[1] >= 64) {
+    /* a Confirmable (separate) response: the peer acknowledges it */
+    uint8_t a[4] = { 0x60, 0, dg->data[2], dg->data[3] };
+    sim_inject(&dg->dst, &dg->src, a, 4, 0, -1);
+  }
 }
 
 static void add_res(const rdef_t *d, int unknown, int wk, int proxy) {
@@ -114,8 +151,10 @@ static void table_json(void) {
     }
     fputs("],\"methods\":[", sim_trace);
     for (j = 0; RES[i].h[j].m; j++) fprintf(sim_trace, "%s[%d,%d]", j ? "," : "", RES[i].h[j].m, RES[i].h[j].code);
-    fputs("]}", sim_trace);
+    fputs("],\"defer\":false}", sim_trace);
   }
+  for (i = 0; table == 6 && ASY[i].path; i++)
+    fprintf(sim_trace, ",{\"segs\":[[%d]],\"methods\":[[1,0]],\"defer\":true}", ASY[i].path[0]);
   fprintf(sim_trace, "],\"unknown\":{\"present\":%s,\"wk\":%s,\"methods\":[", (table == 2 || table == 3) ? "true" : "false",
           table == 3 ? "true" : "false");
   for (j = 0; UNK.h[j].m; j++) fprintf(sim_trace, "%s[%d,%d]", j ? "," : "", UNK.h[j].m, UNK.h[j].code);
@@ -178,24 +217,40 @@ int main(int argc, char **argv) {
       if (table == 2 || table == 3) add_res(&UNK, 1, table == 3, 0);
       if (table == 4) coap_register_option(ctx, 65001);
       if (table == 5) add_res(&UNK, 0, 0, 1);
+      for (i = 0; table == 6 && ASY[i].path; i++) add_res(&ASY[i], 0, 0, 0);
+      ndeferred = 0;
       fprintf(sim_trace, "{\"e\":\"Reset\",\"id\":%d,", id);
       table_json();
       fputs("}\n", sim_trace);
       fflush(sim_trace);
-    } else if (line[0] == 'I' && ctx) {
+    } else if (line[0] == 'T' && ctx) {
+      int i;
+      fprintf(sim_trace, "{\"e\":\"Trigger\",\"n\":%d}\n", ndeferred);
+      for (i = 0; i < ndeferred; i++)
+        coap_async_trigger(deferred[i]);
+      ndeferred = 0;
+      sim_run(sim_now + 1000);
+      fprintf(sim_trace, "{\"e\":\"TDone\",\"n\":%d}\n", ninj);
+    } else if (line[0] == 'W' && ctx) {
+      int ms = atoi(line + 1);
+      fprintf(sim_trace, "{\"e\":\"Wait\",\"ms\":%d}\n", ms);
+      sim_run(sim_now + (uint64_t)ms);
+      fprintf(sim_trace, "{\"e\":\"WDone\",\"ms\":%d}\n", ms);
+    } else if ((line[0] == 'I' || line[0] == 'J') && ctx) {
       char h[1 << 14] = "", m[8] = "";
       size_t n;
       coap_address_t peer;
-      int mc;
+      int mc, port = 20000 + (ninj % 20000);
       sscanf(line + 1, "%16383s %7s", h, m);
       n = unhex(h, b, sizeof(b));
-      mc = m[0] == 'm';
-      sim_addr(&peer, "127.0.0.1", (uint16_t)(20000 + (ninj % 20000)));
-      fprintf(sim_trace, "{\"e\":\"Inject\",\"n\":%d,\"mcast\":%s,\"w\":", ninj, mc ? "true" : "false");
+      mc = line[0] == 'I' && m[0] == 'm';
+      if (line[0] == 'J') port = 45000 + atoi(m);
+      sim_addr(&peer, "127.0.0.1", (uint16_t)port);
+      fprintf(sim_trace, "{\"e\":\"Inject\",\"n\":%d,\"peer\":%d,\"mcast\":%s,\"w\":", ninj, port, mc ? "true" : "false");
       arr(b, n);
       fputs("}\n", sim_trace);
       sim_inject(&peer, mc ? &mc_addr : &srv_addr, b, n, 0, -1);
-      sim_run(sim_now + 6000);         /* covers the multicast leisure delay */
+      sim_run(sim_now + (line[0] == 'J' ? 1000 : 6000));         /* covers the multicast leisure delay */
       fprintf(sim_trace, "{\"e\":\"Done\",\"n\":%d}\n", ninj);
       ninj++;
     }
